@@ -110,6 +110,18 @@ def disc(ctx, fams, flavours):
         if _avoid_path(K, start, S['NEXT'], {S['ADVANCE']} | found_blocks) and start != S['ADVANCE']:
             ok = False
             why.append('a path from INSERT back to next() avoids ADVANCE (discovered node never expanded)')
+        # ... and stays marked: inside a kernel the visited set is only tested and grown.  Forgetting a key (remove / clear / retain /
+        # take, per level or on back-tracking) re-opens the node: it is discovered and expanded again
+        VIS_OK = {'contains', 'insert', 'get', 'len', 'is_empty', 'deref', 'deref_mut', 'reserve', 'extend', 'capacity', 'iter', 'borrow', 'borrow_mut', 'as_ref', 'as_mut'}
+        for bi_, t_ in calls_in(K.b):
+            if bi_ not in cfg.reach or t_['callee'] in F.bodies or (t_.get('local') and t_.get('res') in F.bodies):
+                continue
+            cn_ = callee_name(t_).split('::')[-1]
+            if cn_ in VIS_OK:
+                continue
+            if any(term_mentions(K.pv.of_operand(a_), lambda x: x == ('param', K.vis)) for a_ in t_['args'] if a_['k'] in ('move', 'copy')):
+                ok = False
+                why.append('the visited set is handed to %s at %s: a key that is un-marked is discovered and expanded again' % (callee_name(t_), t_['sp']))
         O('iii', ok, '; '.join(why) if why else 'INSERT bb%d dominates ADVANCE bb%d; no path skips either' % (S['INSERT'], S['ADVANCE']), 'INSERT')
         # (iv)
         if K.result:
@@ -302,6 +314,30 @@ def exh(ctx, fams, flavours):
             tk = K.sites.get('TAKE')
             if not any(tk in body and K.sites['NEXT'] in body for body in ls.values()):
                 why.append('TAKE and next() are not nested in one outer loop')
+        # the edge iterator has one consumer, the loop head: a second `&mut` user of the same iterator (by_ref().take_while(..),
+        # nth, a nested loop stepping it) swallows edges that never reach the callback or the visited test
+        nt = b['blocks'][K.sites['NEXT']]['term']
+        if not getattr(K, 'buffered', False) and nt.get('gargs'):
+            ity = nt['gargs'][0]
+            its = {l for l, ty in enumerate(b['locals']) if ty == ity}
+            refs = set()
+            ch = True
+            while ch:
+                ch = False
+                for blk in b['blocks']:
+                    for st_ in blk['stmts']:
+                        if st_['k'] != 'assign' or st_['dst']['p'] or st_['dst']['l'] in refs:
+                            continue
+                        rv = st_['rv']
+                        if rv['k'] == 'ref' and rv.get('mut') and ((rv['pl']['l'] in its and not rv['pl']['p']) or (rv['pl']['l'] in refs and rv['pl']['p'] == ['*'])):
+                            refs.add(st_['dst']['l']); ch = True
+                        elif rv['k'] == 'use' and any(o['k'] in ('move', 'copy') and o['pl']['l'] in refs and not o['pl']['p'] for o in rv['ops']):
+                            refs.add(st_['dst']['l']); ch = True
+            for bi2, t2 in calls_in(b):
+                if bi2 == K.sites['NEXT'] or bi2 not in cfg.reach:
+                    continue
+                if any(a['k'] in ('move', 'copy') and a['pl']['l'] in refs and not a['pl']['p'] for a in t2['args']):
+                    why.append('the edge iterator is also consumed by %s at %s: edges it takes never reach the callback' % (callee_name(t2), t2['sp']))
         # false/None is only returned after exhaustion: every `false`/`none` return block is reachable only via exhausted exits
         out.append(Obl('EXH', K.q, _w(F, K, 'NEXT'), 'no early exit: %d loop exit edges' % n_exits, not why,
                        '; '.join(why) if why else '%d exhausted, %d found' % (kinds['exhausted'], kinds['found'])))
